@@ -591,6 +591,7 @@ class StmtMixin:
     def loop(self, node, st, fr, it):
         spec, label = self.loop_spec(node, fr)
         isfor = isinstance(node, ast.For)
+        self.run_asserts("%s:before" % label, st, fr, node)
         if spec is None:
             yield from self.unroll(node, st, fr, it, label)
             return
@@ -863,6 +864,51 @@ class StmtMixin:
                     else:
                         yield (kind, s2, v)
         yield from runw(st, 0)
+
+    # ------------------------------------------------------------ ghost assertions / lemmas at program points
+    def run_asserts(self, point, st, fr, node):
+        c = fr.contract
+        if c is None or fr.spec or not c.asserts or fr.inline_stack:
+            return
+        clauses = c.asserts.get(point)
+        if not clauses:
+            return
+        clauses = list(clauses.items()) if isinstance(clauses, dict) else [("a%d" % k, x) for k, x in enumerate(clauses)]
+        for name, clause in clauses:
+            tree = self.parse_clause(clause)
+            if isinstance(tree, ast.Call) and isinstance(tree.func, ast.Name) and tree.func.id == "induct":
+                self.induct(tree, st, fr, "%s:%s" % (point, name), node)
+            elif isinstance(tree, ast.Call) and isinstance(tree.func, ast.Name) and tree.func.id == "assume_axiom":
+                # a named axiom (an assumption that is reported as such)
+                g = self.spec_eval(ast.unparse(tree.args[0]), st, fr, point)
+                self.assumptions_used.add("axiom %s in %s: %s" % (name, c.name, ast.unparse(tree.args[0])))
+                self.assume(st, g)
+            else:
+                g = self.spec_eval(clause, st, fr, point + ":" + name)
+                self.oblige(st, g, "lemma", "%s:%s" % (point, name), node, fr)
+
+    def induct(self, tree, st, fr, label, node):
+        """induct(k, lo, hi, P(k)): proves P(lo) and P(k) => P(k+1) for lo <= k < hi, then assumes forall k in [lo,hi]"""
+        kname = tree.args[0].id
+        sf = self.spec_frame(fr)
+        lo = to_z3(self.ev1(tree.args[1], st, sf), "int")
+        hi = to_z3(self.ev1(tree.args[2], st, sf), "int")
+        body = tree.args[3]
+
+        def P(kval):
+            f2 = self.sub_frame(sf)
+            f2.qvars[kname] = kval
+            return to_z3(self.truth_of(self.ev1(body, st, f2), st))
+        self.oblige_no_assume(st, z3.Implies(lo <= hi, P(lo)), "lemma", label + ":base", node, fr)
+        k0 = fresh(kname + "!ind", I)
+        self.oblige_no_assume(st, z3.Implies(z3.And(lo <= k0, k0 < hi, P(k0)), P(k0 + 1)), "lemma", label + ":step", node, fr)
+        kq = fresh(kname + "!all", I)
+        self.assume(st, z3.ForAll([kq], z3.Implies(z3.And(lo <= kq, kq <= hi), P(kq))))
+
+    def oblige_no_assume(self, st, goal, kind, label, node, fr):
+        n = len(st.pc)
+        self.oblige(st, goal, kind, label, node, fr)
+        del st.pc[n:]
 
     # ------------------------------------------------------------ spec clause evaluation
     def spec_frame(self, fr):
